@@ -52,10 +52,11 @@ ArgT2(t) == t[2][2][3][3][1]
 IfT(t) == t[2][2][2][3][3][2][3][1]
 
 \* ------------------------------------------------------------------ tier E : finite standard models
-InterpX == Interp \cup {"xor", "IF"}
+InterpX == Interp \cup {"xor", "IF", "Let"}
 ConstValX(n, T, ta) ==
   IF n = "xor" THEN [x \in BOOLEAN |-> [y \in BOOLEAN |-> x # y]]
   ELSE IF n = "IF" THEN LET D == Dom(T[3][2][3][1], ta) IN [c \in BOOLEAN |-> [x \in D |-> [y \in D |-> IF c THEN x ELSE y]]]
+  ELSE IF n = "Let" THEN [x \in Dom(T[3][1], ta) |-> [f \in Dom(T[3][2][3][1], ta) |-> f[x]]]      \* Let_def: Let s f = f s
   ELSE ConstVal(n, T, ta)
 RECURSIVE EvalX(_,_,_,_)
 EvalX(t, va, benv, ta) ==
@@ -70,6 +71,7 @@ EvalX(t, va, benv, ta) ==
   ELSE IF IsApp2(t, "equals") THEN EvalX(A1(t), va, benv, ta) = EvalX(A2(t), va, benv, ta)
   ELSE IF IsApp2(t, "xor") THEN EvalX(A1(t), va, benv, ta) # EvalX(A2(t), va, benv, ta)
   ELSE IF IsApp3(t, "IF") THEN (IF EvalX(C3(t), va, benv, ta) THEN EvalX(A1(t), va, benv, ta) ELSE EvalX(A2(t), va, benv, ta))
+  ELSE IF IsApp2(t, "Let") THEN EvalX(A2(t), va, benv, ta)[EvalX(A1(t), va, benv, ta)]
   ELSE EvalX(t[2], va, benv, ta)[EvalX(t[3], va, benv, ta)]
 
 RECURSIVE VarsOf(_), ConstsOf(_), TypesInX(_)
@@ -104,6 +106,29 @@ EntailedX(prems, res, N) ==
       symSeq == SetToSeq(UNION { VarsOf(t) : t \in ts })
       tvs == UNION { TVarsOfTerm(t) : t \in ts } IN
   \A ta \in [tvs -> Carriers(N)] : HoldsAllX(prems, res, symSeq, 1, <<>>, ta)
+
+\* ---- steps that DISCHARGE context equations (let): the last premise was derived under hypotheses  x = s  for the variables x bound by
+\* the step; Alethe reads such a premise as holding FOR ALL values of x.  The step is a consequence when, for every interpretation of
+\* the other symbols,  (for all values of the discharged variables: every premise sequent holds)  implies  (for all values: the result holds).
+IsEqVar(h) == IsApp2(h, "equals") /\ A1(h)[1] = "var"
+DischargedVars(prems, res) ==
+  IF Len(prems) = 0 THEN {}
+  ELSE LET lp == prems[Len(prems)] IN { A1(lp.h[k]) : k \in { k \in 1..Len(lp.h) : IsEqVar(lp.h[k]) /\ \A m \in 1..Len(res.h) : res.h[m] # lp.h[k] } }
+RECURSIVE PremsAllV(_,_,_,_,_), ResAllV(_,_,_,_,_), HoldsClosedX(_,_,_,_,_,_,_)
+PremsAllV(prems, vSeq, i, va, ta) ==
+  IF i > Len(vSeq) THEN \A j \in 1..Len(prems) : SeqHolds(prems[j], va, ta)
+  ELSE \A d \in Dom(vSeq[i][3], ta) : PremsAllV(prems, vSeq, i + 1, (vSeq[i] :> d) @@ va, ta)
+ResAllV(res, vSeq, i, va, ta) ==
+  IF i > Len(vSeq) THEN SeqHolds(res, va, ta)
+  ELSE \A d \in Dom(vSeq[i][3], ta) : ResAllV(res, vSeq, i + 1, (vSeq[i] :> d) @@ va, ta)
+HoldsClosedX(prems, res, outSeq, i, vSeq, va, ta) ==
+  IF i > Len(outSeq) THEN PremsAllV(prems, vSeq, 1, va, ta) => ResAllV(res, vSeq, 1, va, ta)
+  ELSE \A d \in Dom(outSeq[i][3], ta) : HoldsClosedX(prems, res, outSeq, i + 1, vSeq, (outSeq[i] :> d) @@ va, ta)
+EntailedClosedX(prems, res, V, N) ==
+  LET ts == StepTerms(prems, res)
+      syms == UNION { VarsOf(t) : t \in ts }
+      tvs == UNION { TVarsOfTerm(t) : t \in ts } IN
+  \A ta \in [tvs -> Carriers(N)] : HoldsClosedX(prems, res, SetToSeq(syms \ V), 1, SetToSeq(syms \cap V), <<>>, ta)
 
 \* ------------------------------------------------------------------ tier A : linear arithmetic at grid points
 RAdd(a, b) == <<a[1] * b[2] + b[1] * a[2], a[2] * b[2]>>
@@ -183,6 +208,13 @@ Grid == 2
 Tier(prems, res) == IF ExaminableX(prems, res, NModel) THEN "E" ELSE IF ExaminableA(prems, res) THEN "A" ELSE "none"
 Entailed(prems, res) == LET k == Tier(prems, res) IN
                         IF k = "E" THEN EntailedX(prems, res, NModel) ELSE IF k = "A" THEN EntailedA(prems, res, Grid) ELSE TRUE
+\* per rule: the rules that discharge context equations are read with the universal closure above (finite-model tier only)
+ClosureRules == {"verit_let"}
+TierStep(rule, prems, res) == IF rule \in ClosureRules THEN (IF ExaminableX(prems, res, NModel) THEN "E" ELSE "none") ELSE Tier(prems, res)
+EntailedStep(rule, prems, res) ==
+  IF rule \in ClosureRules
+  THEN (IF ExaminableX(prems, res, NModel) THEN EntailedClosedX(prems, res, DischargedVars(prems, res), NModel) ELSE TRUE)
+  ELSE Entailed(prems, res)
 \* hypothesis discipline
 HypSet(sq) == { sq.h[k] : k \in 1..Len(sq.h) }
 HypsSubset(prems, res) == HypSet(res) \subseteq UNION { HypSet(prems[i]) : i \in 1..Len(prems) }
